@@ -552,6 +552,9 @@ func TestServerHistories(t *testing.T) {
 		}
 	}
 	n := scale(300, 8000)
+	if os.Getenv("VERIF_RACE") != "" {
+		n = scale(40, 600)
+	}
 	for i := 0; i < n; i++ {
 		runServerHistory(t, c, serverTags(), "sequential", seed()*1000003+int64(i))
 	}
